@@ -55,6 +55,60 @@ def run(cmd, cwd=None, env=None, timeout=None, check=True, capture=True):
     return p.returncode, out, time.time() - t0
 
 
+_ENGINE_FRAME = re.compile(r"github\.com/danthegoodman1/bloomsearch\.")
+
+
+def run_driver(cmd, work, timeout=5400):
+    """Runs a Go driver with its standard output/error capture file next to work. Returns (rc, text, seconds, crash):
+    crash is the Go runtime's last words when the process died of a panic / fatal error that involves engine frames
+    (the engine crashed on the driver's input: a finding, not an infrastructure failure), else None."""
+    cap = os.path.join(work, "stdio-%d.cap" % (int(time.time() * 1000) % 1000000))
+    env = dict(os.environ, VERIF_STDIO_CAP=cap)
+    rc, txt, secs = run(cmd, timeout=timeout, check=False, env=env)
+    crash = None
+    if rc != 0:
+        try:
+            last = open(cap, errors="replace").read()[-20000:]
+        except OSError:
+            last = ""
+        m = re.search(r"(panic: |fatal error: )", last)
+        if m and _ENGINE_FRAME.search(last[m.start():]):
+            crash = last[m.start():m.start() + 6000]
+    return rc, txt, secs, crash
+
+
+class EngineCrash(Exception):
+    """The driver's process died of a panic / fatal error involving engine frames."""
+
+    def __init__(self, family, crash, reproduced):
+        Exception.__init__(self, "engine crash in %s driver" % family)
+        self.family, self.crash, self.reproduced = family, crash, reproduced
+
+
+def drive(cmd, work, family, timeout=5400):
+    """Runs a Go driver. A death inside the engine is re-run once and raised as EngineCrash (a finding when it repeats);
+    any other failure is an infrastructure failure."""
+    rc, txt, secs, crash = run_driver(cmd, work, timeout)
+    if rc != 0 and crash:
+        # a crash that depends on goroutine timing need not repeat at once: up to three re-executions
+        again = False
+        for _ in range(3):
+            rc2, _, _, crash2 = run_driver(cmd, work, timeout)
+            if rc2 != 0 and crash2 is not None:
+                again = True
+                break
+        raise EngineCrash(family, crash, again)
+    if rc != 0:
+        raise Infra("%s harness failed (%d): %s" % (family, rc, txt[-3000:]))
+    return txt, secs
+
+
+def crash_violation(props, family, crash, reproduced):
+    """One violation per property of the family: every property presupposes that the engine survives the inputs."""
+    return [{"pred": "%s_EngineSurvives" % p, "prop": p, "title": "the %s driver's process died inside the engine" % family,
+             "sig": {"pred": "EngineSurvives"}, "reproduced": reproduced, "crash": crash} for p in props]
+
+
 def build_harness(cmd):
     """Rebuild one harness binary against /repo's current working tree."""
     os.makedirs(BUILD, exist_ok=True)
